@@ -17,7 +17,7 @@ def series(n, rng, start=100.0):
     return np.array(rows)
 
 
-def observe(rows, fast, tf, until_ts):
+def observe(rows, fast, tf, until_ts, rows2=None):
     from jesse import research
     from jesse.strategies import Strategy
     from jesse.store import store
@@ -46,7 +46,9 @@ def observe(rows, fast, tf, until_ts):
                 return
             c = self.candles
             big = self.get_candles('Sandbox', 'BTC-USDT', '15m')
+            other = self.get_candles('Sandbox', 'ETH-USDT', '1m') if rows2 is not None else []
             log.append(('step', store.app.time, len(c), c[-1].tolist(), len(big), big[-1].tolist() if len(big) else None,
+                        len(other), other[-1].tolist() if len(other) else None,
                         round(self.position.qty, 9), round(self.balance, 6),
                         None if self.position.current_price is None else round(self.position.current_price, 6),
                         round(self.position.pnl, 6) if self.position.is_open else 0.0, round(self.available_margin, 6), round(self.price, 6),
@@ -61,20 +63,29 @@ def observe(rows, fast, tf, until_ts):
                 log.append(('close', store.app.time, round(order.price, 6)))
     cfg = {'starting_balance': 100000, 'fee': 0.0005, 'type': 'futures', 'futures_leverage': 3, 'futures_leverage_mode': 'cross',
            'exchange': 'Sandbox', 'warm_up_candles': 0}
-    research.backtest(cfg, [{'exchange': 'Sandbox', 'strategy': S, 'symbol': 'BTC-USDT', 'timeframe': tf}],
-                      [{'exchange': 'Sandbox', 'symbol': 'BTC-USDT', 'timeframe': '15m'}],
-                      {'Sandbox-BTC-USDT': {'exchange': 'Sandbox', 'symbol': 'BTC-USDT', 'candles': rows.copy()}}, fast_mode=fast)
+    data_routes = [{'exchange': 'Sandbox', 'symbol': 'BTC-USDT', 'timeframe': '15m'}]
+    cd = {'Sandbox-BTC-USDT': {'exchange': 'Sandbox', 'symbol': 'BTC-USDT', 'candles': rows.copy()}}
+    if rows2 is not None:
+        # a second symbol that is only a data route (no strategy, no position object)
+        data_routes.append({'exchange': 'Sandbox', 'symbol': 'ETH-USDT', 'timeframe': '1m'})
+        cd['Sandbox-ETH-USDT'] = {'exchange': 'Sandbox', 'symbol': 'ETH-USDT', 'candles': rows2.copy()}
+    research.backtest(cfg, [{'exchange': 'Sandbox', 'strategy': S, 'symbol': 'BTC-USDT', 'timeframe': tf}], data_routes, cd, fast_mode=fast)
     return log
 
 
-def two_runs(n, cut, fast, tf, seed):
+def two_runs(n, cut, fast, tf, seed, two_symbols=False):
     rng = random.Random(seed)
     a = series(n, rng)
     b = a.copy()
     tail = series(n - cut, random.Random(seed + 1), start=float(a[cut - 1][2]) * 1.02)
     b[cut:, 1:] = tail[:, 1:]
     until = TS0 + cut * 60000
-    la, lb = observe(a, fast, tf, until), observe(b, fast, tf, until)
+    a2 = b2 = None
+    if two_symbols:
+        a2 = series(n, random.Random(seed + 7), start=30.0)
+        b2 = a2.copy()
+        b2[cut:, 1:] = series(n - cut, random.Random(seed + 8), start=float(a2[cut - 1][2]) * 0.97)[:, 1:]
+    la, lb = observe(a, fast, tf, until, a2), observe(b, fast, tf, until, b2)
     if la != lb:
         for x, y in zip(la, lb):
             if x != y:
@@ -109,7 +120,9 @@ def replay(pl):
             n_normal = n + 3
             d = two_runs(n if fast else n_normal, cut, fast, '5m' if fast else '1m', pl.get('seed', 0)) \
                 or two_runs(n_normal if fast else n, cut, not fast, '1m' if fast else '5m', pl.get('seed', 0)) \
-                or two_runs(n_normal, cut, False, '5m', pl.get('seed', 0))
+                or two_runs(n_normal, cut, False, '5m', pl.get('seed', 0)) \
+                or two_runs(n_normal, cut, False, '5m', pl.get('seed', 0), two_symbols=True) \
+                or two_runs(n, cut, True, '5m', pl.get('seed', 0), two_symbols=True)
             if d:
                 return {'confirmed': True, 'detail': d}
     except Exception as ex:
